@@ -5,10 +5,10 @@ from progprop import replay
 
 
 def run(tier):
-    return progprop.run('C09', tier, tmpl.determinism(), 'c09',
+    return progprop.run('C09', tier, tmpl.determinism(tier), 'c09',
                         'Programs whose constraint and domain stores hold several entries are executed twice from MIR on every path: once with the hash-based '
                         'stores iterated in insertion order and once with the iteration order of their first iterations chosen by the solver (any permutation for '
-                        '<= 3 entries, any rotation otherwise); the two answer SEQUENCES must coincide (determinism across hash seeds) and agree with the reference. '
+                        '<= 3 entries, any rotation otherwise); and again with EVERY hash iteration of the run reversed (thorough: also rotated, alternating, pairwise swapped); all answer SEQUENCES must coincide (determinism across hash seeds) and agree with the reference. '
                         'Every template function also calls next() twice more after the first None (fusedness), and prefix templates take the first N answers of '
                         'an infinite stream (laziness).',
                         extra_assume=['hash iteration order is modelled as: insertion order, or a solver-chosen permutation/rotation for the first 4 iterations of a run'])
